@@ -71,6 +71,7 @@ typedef struct {
 typedef struct {
     regex_t reg;
     const char *topic;
+    bool fired;                             // a M_SRC_ONESHOT subscription already delivered its message
 } ps_src_t;
 
 typedef struct _ev_src *(*process_cb)(struct _ev_src *this, m_ctx_t *c, int idx, evt_priv_t *evt);
